@@ -11,7 +11,7 @@
    extracted from this file and compares the bytes with the binary's output, for every whitespace configuration. *)
 From Coq Require Import List Ascii String Bool Arith.
 Import ListNotations.
-From SV Require Import Lex LexRender Expr Parens Quote QuoteMore Number.
+From SV Require Import Lex LexRender Expr Parens Quote QuoteMore Number CallForm.
 Notation tok := Lex.tok (only parsing).
 
 Inductive exp :=
@@ -19,8 +19,8 @@ Inductive exp :=
 | ENum (s : bytes) | EStr (s : bytes) | EName (n : bytes)
 | EField (p : exp) (n : bytes)                       (* p.n *)
 | EIndex (p k : exp)                                 (* p[k] *)
-| ECall (f : exp) (args : list exp)                  (* f(args) *)
-| EMethod (o : exp) (m : bytes) (args : list exp)    (* o:m(args) *)
+| ECall (f : exp) (sg : bool) (args : list exp)                  (* f(args); sg: the single string / table argument is *)
+| EMethod (o : exp) (m : bytes) (sg : bool) (args : list exp)    (* o:m(args)   written without parentheses, f "s" / f { t } *)
 | EUn (u : uop) (e : exp) | EBin (b : bop) (l r : exp) | EParen (e : exp)
 | ETable (fs : list exp)                             (* fields: FPos / FNamed / FKey only *)
 | FPos (e : exp) | FNamed (n : bytes) (e : exp) | FKey (k e : exp).
@@ -52,7 +52,7 @@ with blk := Blk (items : list item) (tail : trivia).
 (* the operator shape of an expression, as Parens.v sees it *)
 Fixpoint shape (e : exp) : expr :=
   match e with
-  | ECall _ _ | EMethod _ _ _ | EVararg => Multi
+  | ECall _ _ _ | EMethod _ _ _ _ | EVararg => Multi
   | EParen x => Paren (shape x)
   | EUn u x => Un u (shape x)
   | EBin b l r => Bin b (shape l) (shape r)
@@ -67,8 +67,8 @@ Fixpoint nexp (c : ctx) (e : exp) : exp :=
   | EBin b l r => EBin b (nexp (lhs_ctx b) l) (nexp UB r)
   | EField p n => EField (nexp Prefix p) n
   | EIndex p k => EIndex (nexp Prefix p) (nexp Std k)
-  | ECall f args => ECall (nexp Prefix f) (map (nexp Std) args)
-  | EMethod o m args => EMethod (nexp Prefix o) m (map (nexp Std) args)
+  | ECall f sg args => ECall (nexp Prefix f) sg (map (nexp Std) args)
+  | EMethod o m sg args => EMethod (nexp Prefix o) m sg (map (nexp Std) args)
   | ETable fs => ETable (map (nexp Std) fs)
   | FPos x => FPos (nexp Std x)
   | FNamed n x => FNamed n (nexp Std x)
@@ -106,8 +106,65 @@ with nblk (b : blk) : blk := match b with Blk is tl => Blk (map nitem is) tl end
 Definition nprog := nblk.
 
 
+(* ---------------- call form: call_parentheses (functions.rs format_function_args, the model of CallForm.v) ----------------
+   The single argument of a call is put in the form CallForm.call_form gives for the mode, the form it had, its kind and
+   "an index or a method call follows" (format_function_call: the next suffix). *)
+Definition sugarable (args : list exp) : bool := match args with [EStr _] | [ETable _] => true | _ => false end.
+Definition akind_args (args : list exp) : akind := match args with [EStr _] => KStr | [ETable _] => KTbl | _ => KOther end.
+Definition aform_args (sg : bool) (args : list exp) : aform :=
+  if sg then match args with [EStr _] => FStr | [ETable _] => FTbl | _ => FParen end else FParen.
+Definition newsg (m : cmode) (obs sg : bool) (args : list exp) : bool :=
+  match call_form m (aform_args sg args) (akind_args args) obs with FParen => false | _ => true end.
+Section CExp.
+Variable m : cmode.
+Fixpoint cexp (obs : bool) (e : exp) : exp :=
+  match e with
+  | EField p n => EField (cexp true p) n
+  | EIndex p k => EIndex (cexp true p) (cexp false k)
+  | ECall f sg args => ECall (cexp false f) (newsg m obs sg args) (map (cexp false) args)
+  | EMethod o n sg args => EMethod (cexp true o) n (newsg m obs sg args) (map (cexp false) args)
+  | EUn u x => EUn u (cexp false x)
+  | EBin b l r => EBin b (cexp false l) (cexp false r)
+  | EParen x => EParen (cexp false x)
+  | ETable fs => ETable (map (cexp false) fs)
+  | FPos x => FPos (cexp false x)
+  | FNamed n x => FNamed n (cexp false x)
+  | FKey k x => FKey (cexp false k) (cexp false x)
+  | _ => e
+  end.
+End CExp.
+(* a pass that rewrites every expression of a program and nothing else *)
+Section SMap.
+Variable fe : exp -> exp.
+Fixpoint smap_s (s : stmt) : stmt :=
+  match s with
+  | SLocal ns es => SLocal ns (map fe es)
+  | SAssign vs es => SAssign (map fe vs) (map fe es)
+  | SCall e => SCall (fe e)
+  | SDo b => SDo (smap_b b)
+  | SWhile c b => SWhile (fe c) (smap_b b)
+  | SRepeat b c => SRepeat (smap_b b) (fe c)
+  | SIf c t e => SIf (fe c) (smap_b t) (smap_r e)
+  | SNumFor v a b st body => SNumFor v (fe a) (fe b) (option_map fe st) (smap_b body)
+  | SGenFor ns es body => SGenFor ns (map fe es) (smap_b body)
+  | SFunction p me ps va body => SFunction p me ps va (smap_b body)
+  | SLocalFunction n ps va body => SLocalFunction n ps va (smap_b body)
+  | SReturn es => SReturn (map fe es)
+  | SBreak => SBreak
+  end
+with smap_r (e : els) : els :=
+  match e with
+  | NoElse => NoElse
+  | Else b => Else (smap_b b)
+  | ElseIf c t e => ElseIf (fe c) (smap_b t) (smap_r e)
+  end
+with smap_i (i : item) : item := match i with Item l b s t => Item l b (smap_s s) t end
+with smap_b (b : blk) : blk := match b with Blk is tl => Blk (map smap_i is) tl end.
+End SMap.
+Definition cprog (m : cmode) : blk -> blk := smap_b (cexp m false).
+
 (* ---------------- print: the tokens the formatter writes ---------------- *)
-Record cfg0 := { windows0 : bool; spaces0 : bool; width0 : nat; style0 : QuoteMore.style }.
+Record cfg0 := { windows0 : bool; spaces0 : bool; width0 : nat; style0 : QuoteMore.style; callp0 : cmode; space0 : smode }.
 Definition kw (s : string) : tok := TSym (str s).
 Definition sp : tok := TWs [SP].
 Definition eol (c : cfg0) : tok := TWs (if windows0 c then [CR; LF] else [LF]).
@@ -137,15 +194,21 @@ Definition qkind_of (q : Quote.quote) : qkind := match q with QS => QSingle | QD
 Definition pstr (st : QuoteMore.style) (body : bytes) : tok :=
   let q := QuoteMore.choose st body in TStr (qkind_of q) 0 (Quote.rewrite q body).
 Section PExp.
-Variable st : QuoteMore.style.
+Variable c : cfg0.
+(* space_after_function_names (context.rs / functions.rs create_function_call_trivia): a blank before the `(` of a call
+   under Calls / Always.  Without parentheses there is always one blank, and the option adds its own. *)
+Definition gap_call : list tok := if space_call (space0 c) then [sp] else [].
+Definition gap_sugar : tok := TWs (SP :: (if space_call (space0 c) then [SP] else [])).
+(* the arguments [xs] of a call, without parentheses ([sug]) or inside them *)
+Definition pargs (sug : bool) (xs : list tok) : list tok := if sug then gap_sugar :: xs else gap_call ++ kw "(" :: xs ++ [kw ")"].
 Fixpoint pexp (e : exp) : list tok :=
   match e with
   | ENil => [kw "nil"] | ETrue => [kw "true"] | EFalse => [kw "false"] | EVararg => [kw "..."]
-  | ENum s => [TNum (Number.number_rewrite s)] | EStr s => [pstr st s] | EName n => [TIdent n]
+  | ENum s => [TNum (Number.number_rewrite s)] | EStr s => [pstr (style0 c) s] | EName n => [TIdent n]
   | EField p n => pexp p ++ [kw "."; TIdent n]
   | EIndex p k => pexp p ++ kw "[" :: pexp k ++ [kw "]"]
-  | ECall f args => pexp f ++ kw "(" :: commas (map pexp args) ++ [kw ")"]
-  | EMethod o m args => pexp o ++ kw ":" :: TIdent m :: kw "(" :: commas (map pexp args) ++ [kw ")"]
+  | ECall f sg args => pexp f ++ pargs (sg && sugarable args) (commas (map pexp args))
+  | EMethod o m sg args => pexp o ++ kw ":" :: TIdent m :: pargs (sg && sugarable args) (commas (map pexp args))
   | EUn u x => uop_toks u ++ pexp x
   | EBin b l r => pexp l ++ sp :: kw (bop_text b) :: sp :: pexp r
   | EParen x => kw "(" :: pexp x ++ [kw ")"]
@@ -158,15 +221,15 @@ Fixpoint pexp (e : exp) : list tok :=
 Definition pexps (es : list exp) : list tok := commas (map pexp es).
 End PExp.
 Definition pnames (ns : list bytes) : list tok := commas (map (fun n => [TIdent n]) ns).
-Definition pparams (ps : list bytes) (va : bool) : list tok :=
-  kw "(" :: commas (map (fun n => [TIdent n]) ps ++ (if va then [[kw "..."]] else [])) ++ [kw ")"].
+Definition pparams (c : cfg0) (ps : list bytes) (va : bool) : list tok :=
+  (if space_definition (space0 c) then [sp] else []) ++ kw "(" :: commas (map (fun n => [TIdent n]) ps ++ (if va then [[kw "..."]] else [])) ++ [kw ")"].
 Fixpoint dotted (p : list bytes) : list tok :=
   match p with [] => [] | [n] => [TIdent n] | n :: r => TIdent n :: kw "." :: dotted r end.
 
 Section Print.
 Variable c : cfg0.
-Notation pexp := (pexp (style0 c)).
-Notation pexps := (pexps (style0 c)).
+Notation pexp := (pexp c).
+Notation pexps := (pexps c).
 (* own-line comments: an optional empty line, the indentation, the comment, the line ending *)
 Definition ptrivia (d : nat) (tv : trivia) : list tok :=
   List.concat (map (fun bc : bool * bytes => (if fst bc then [eol c] else []) ++ indent c d ++ [TLineCom (snd bc); eol c]) tv).
@@ -192,8 +255,8 @@ Fixpoint pstmt (d : nat) (s : stmt) {struct s} : list tok :=
   | SGenFor ns es body =>
     kw "for" :: sp :: pnames ns ++ sp :: kw "in" :: sp :: pexps es ++ sp :: kw "do" :: eol c :: pblk (S d) body ++ indent c d ++ [kw "end"]
   | SFunction p m ps va body =>
-    kw "function" :: sp :: dotted p ++ (match m with Some n => [kw ":"; TIdent n] | None => [] end) ++ pparams ps va ++ fbody body
-  | SLocalFunction n ps va body => kw "local" :: sp :: kw "function" :: sp :: TIdent n :: pparams ps va ++ fbody body
+    kw "function" :: sp :: dotted p ++ (match m with Some n => [kw ":"; TIdent n] | None => [] end) ++ pparams c ps va ++ fbody body
+  | SLocalFunction n ps va body => kw "local" :: sp :: kw "function" :: sp :: TIdent n :: pparams c ps va ++ fbody body
   | SReturn [] => [kw "return"]
   | SReturn es => kw "return" :: sp :: pexps es
   | SBreak => [kw "break"]
@@ -214,5 +277,7 @@ with pblk (d : nat) (b : blk) {struct b} : list tok :=
 Definition pprog (p : blk) : list tok := pblk 0 p.
 End Print.
 
+
 (* the formatter on L0: bytes of the output for a program *)
-Definition format0 (c : cfg0) (p : blk) : bytes := render (pprog c (nprog p)).
+Definition norm0 (c : cfg0) (p : blk) : blk := cprog (callp0 c) (nprog p).
+Definition format0 (c : cfg0) (p : blk) : bytes := render (pprog c (norm0 c p)).
